@@ -229,7 +229,7 @@ def check(par, links, names, milestones, sections, clock_off, acc, base_cache, s
     lv = [i for i in range(n) if LY.is_leaf(par, i)]
     attrs = {i: {'estimate': 4, 'resource': 'A'} for i in lv}
     with_ext = spent == ('ext',)
-    if with_ext:
+    if with_ext or spent == ('big',):
         spent = None
     if spent is not None:
         for k, i in enumerate(lv):
@@ -378,6 +378,19 @@ def _work(chunk):
         # a dependency on a task outside the rendered WBS is a dependency: it gets its link / edge like the others
         for clock_off in (timedelta(hours=2),):
             jobs.append((par, links, (), {}, clock_off, 0, ('ext',)))
+    # deeper and wider hierarchies (every forest of 4 and 5 tasks with at least three levels, one link): parent ids of the embedded
+    # entries when several summaries stand side by side, one rendering configuration each
+    for nn in (4, 5):
+        for par in LY.forests(nn):
+            if max(len(LY.ancestors(par, i)) for i in range(nn)) < 2:
+                continue
+            cand = LY.link_candidates(par)
+            lk = ()
+            for cnd in cand:
+                if not LY.leaf_cycle(par, (cnd,)):
+                    lk = (cnd,)
+                    break
+            jobs.append((par, lk, (), {}, timedelta(hours=2), 0, ('big',)))
     # ids with several digits / characters: two different links may concatenate to the same text ("1"+"12" == "11"+"2")
     flat4 = (None, None, None, None)
     for links in LY.link_sets(flat4, 2):
@@ -387,6 +400,7 @@ def _work(chunk):
     for (par, links, ms, sec, clock_off, pos, spent) in jobs[i::n]:
         idmap = None
         extv = spent == ('ext',)
+        bigv = spent == ('big',)
         if isinstance(spent, tuple) and spent and spent[0] == 'ids':
             idmap = IDMAPS[spent[1]]
             spent = None
@@ -404,7 +418,7 @@ def _work(chunk):
                 case = {'parents': list(par), 'links': [list(x) for x in links], 'names': names, 'milestones': list(ms),
                         'sections': {str(a): b for a, b in sec.items()}, 'clock_offset_h': clock_off.total_seconds() / 3600, 'renderer': kind,
                         'spent': list(spent) if spent else None, 'external_predecessor_of_last_task': extv}
-                cls = name_class(nm) if (spent is None and idmap is None) else 'external-dependency' if extv else 'spent-work' if idmap is None else 'long-ids'
+                cls = name_class(nm) if (spent is None and idmap is None) else 'external-dependency' if extv else 'larger-hierarchy' if bigv else 'spent-work' if idmap is None else 'long-ids'
 
                 def V(clause, msg):
                     acc.violation('C19', f'{clause}/{cls}', f'name {nm!r}: {msg}', case)
